@@ -356,7 +356,9 @@ int main(int argc, char** argv)
             case ATOMIC_M: one_round(r, fam, new atomic_guarded<Cell, vrf::mutex_t>(false)); break;
             case ATOMIC_TM: one_round(r, fam, new atomic_guarded<Cell, vrf::timed_mutex_t>(false)); break;
             case GUARDED: one_round(r, fam, new guarded<Cell, vrf::mutex_t>(true)); break;
-            case GUARDED_OPT: one_round(r, fam, new guarded_opt<Cell, vrf::mutex_t>(true, true)); break;
+            // whole-object load / store / assignment of guarded_opt are atomic whatever the locking flag says (the flag governs
+            // the handles only)
+            case GUARDED_OPT: one_round(r, fam, new guarded_opt<Cell, vrf::mutex_t>((r / 7) % 2 == 0, true)); break;
             case ORDERED: one_round(r, fam, new ordered_guarded<Cell, vrf::shared_timed_mutex_t>(false)); break;
             case ATOMIC_TRIV: one_round(r, fam, new atomic_guarded<Triv, vrf::mutex_t>(Triv{0, 0, ~0u})); break;
             default: one_round(r, fam, new deferred_guarded<Cell, vrf::shared_timed_mutex_t>(false)); break;
